@@ -70,17 +70,23 @@ _CRDT_RULE = ('perm: every set of <=3 (quick) / <=4 (thorough) updates from a po
               'lossy/reordered/duplicated/batched gossip and snapshots. Every script ends with the visible lists and the full-state dump of every '
               'replica, ByPattern and Get queries. Non-trivial: >=2 updates and >=1 check; distinct by input.')
 PROPS['C08'] = dict(
-    theorems=[],
+    theorems=['sessions_merge_is_lww','subscriptions_merge_is_lww','retained_merge_is_lww','merge_order_irrelevant','lww_value','no_regression','local_retained_write_is_merge','local_subscription_write_is_merge'],
+    level_text='Theorems: each replicated store (session map, per-filter subscription lists, retained messages) is a last-writer-wins map; two replicas that received the same set of updates in any order, any number of times, one at a time or batched hold the same entry under every key, namely the update with the greatest timestamp; an older update never overrides or resurrects; local retained and subscription writes equal the merge of their broadcast. Tied to the Go code by scripts over three real replicas with scripted clocks and deliveries (all permutations/duplications/batchings of small update sets; seeded random histories with offset clocks).',
+    level_note='Trusted: Coq kernel + vm_compute; harness (clock hook, hand-made and real broadcasts), emitter, evaluator. tie_free is a premise (ties between different updates are order-dependent in the code; the oracle skips tied keys). The tries under the subscription and retained stores are modelled as maps (C19 proves they are).',
     families=[dict(name='crdt', corr='DState', runs=[('perm', 1, 1), ('random', 300, 5000)])],
     rule=_CRDT_RULE,
 )
 PROPS['C09'] = dict(
-    theorems=[],
+    theorems=['broadcast_complete_step','receiver_equals_origin'],
+    level_text='Theorems: for each of the nine mutators (bulk DeletePeer/DeleteSession included) merging the single broadcast it queues into a replica with the same entries yields the entries the node now holds, and nothing changes locally without a broadcast; by induction a second node merging the broadcasts of any operation sequence holds the same entries. Tied to the Go code by seeded operation sequences on a real replica whose decoded broadcasts, visible lists and those of two receivers (in order; shuffled with duplicates) are compared with the model and the LWW oracle.',
+    level_note='Premise clock_fresh: the clock reading exceeds the timestamps of the session entries an operation replaces (sessions are written unconditionally by the code). Trusted: Coq kernel + vm_compute; harness, emitter, evaluator.',
     families=[dict(name='crdt', corr='DState', runs=[('bcast', 300, 5000)])],
     rule=_CRDT_RULE,
 )
 PROPS['C10'] = dict(
-    theorems=[],
+    theorems=['snapshot_merge_is_join','snapshot_brings_newer','fresh_equals_source','exchange_converges','invariant_initially'],
+    level_text='Theorems: for arbitrary replica states A, B satisfying the representation invariant, after B merges A\'s full-state dump B holds under every key the newer of the two entries (additions and removals alike); a fresh B holds exactly what A holds; after exchanging snapshots both ways the two hold identical entries (given no cross ties). Tied to the Go code by pairs of seeded histories with 0-100% gossip loss followed by LocalState/MergeRemoteState one way or both; the decoded dump itself is compared with model and oracle.',
+    level_note='Trusted: Coq kernel + vm_compute; harness, emitter, evaluator. cross_tie_free is a premise of exchange_converges.',
     families=[dict(name='crdt', corr='DState', runs=[('snapshot', 300, 5000)])],
     rule=_CRDT_RULE,
 )
